@@ -34,10 +34,19 @@ from .inline import PURE_FUNCS, PURE_METHODS
 
 LOOP_UNROLL = 2
 WHILE_UNROLL = 3
-UNROLL_LEVELS = ((2, 3), (1, 2), (1, 1))
-MAX_PATHS = 8000
+UNROLL_LEVELS = ((2, 2, 3), (1, 2, 2), (1, 1, 2), (1, 1, 1))
+MAX_PATHS = 16000
 MAX_STEPS = 40000
 MAX_DEPTH = 6
+
+_STABLE_FUNCS = {'isinstance', 'issubclass', 'type', 'callable', 'id', 'super', 'str', 'repr', 'int', 'float',
+                 'abs', 'max', 'min', 'range'}
+_STABLE_METHODS = {'startswith', 'endswith', 'lower', 'upper', 'strip', 'split', 'removeprefix', 'partition',
+                   'isoweekday', 'total_seconds', 'has_method', 'input_signature'}
+_NO_FAULT = {'isinstance', 'issubclass', 'type', 'callable', 'id', 'super', 'len', 'bool', 'hasattr', 'repr', 'str',
+             'keys', 'values', 'items', 'done', 'cancelled', 'empty', 'qsize', 'is_set', 'is_initialized',
+             'is_ready', 'is_finalized', 'startswith', 'endswith', 'copy', 'has_method', 'getblocks',
+             'get_running_loop', 'current_task', 'lower', 'upper', 'strip'}
 
 OBSERVATIONS = {'time', 'now', 'monotonic', 'today', 'localtime', 'utcnow', 'perf_counter'}
 
@@ -175,8 +184,9 @@ class Ctx:
         self.stepin = stepin            # quals that exist (unchanged) in this version only
         self.const_attrs = const_attrs
         self.alphabet = tuple(alphabet)
-        self.unroll = (LOOP_UNROLL, WHILE_UNROLL)
+        self.unroll = (LOOP_UNROLL, LOOP_UNROLL, WHILE_UNROLL)
         self.nt_fields = {}
+        self.guarded = set()
         seen = {}
         for cd in classes.values():
             if 'NamedTuple' in {ast.unparse(b).split('.')[-1] for b in cd.bases}:
@@ -280,18 +290,16 @@ class Run:
                     if 'None' not in t and 'object' not in t:
                         self.facts.setdefault(f'is(None, {x})', False)
                     break
-        if atom.startswith('is(') and d:
-            # identical objects are equal
-            self.facts.setdefault('eq(' + atom[3:], True)
 
     # ------------------------------------------------------------------ effects
-    def effect(self, kind, *items, bump=True, fault=True):
+    def effect(self, kind, *items, bump=True, fault=True, name=None):
         self.trace.append((kind,) + tuple(items))
         n = len(self.trace)
         if bump:
             self.epoch += 1
             self.store.clear()
-        if fault and self.try_stack and self.ctx.alphabet:
+        if fault and self.ctx.alphabet and (self.try_stack or (
+                kind in ('call', 'await') and (name if name is not None else self._callee_name(items[0])) in self.ctx.guarded)):
             classes = [c for c in self.ctx.alphabet if c != 'CancelledError' or kind == 'await']
             g = self.choose(f'fault@{n}', [None] + self._fault_groups(classes))
             if g is not None:
@@ -318,6 +326,28 @@ class Run:
         self.exc_cls[val] = keep[0]
         self.facts[key] = '|'.join(keep)
         return d
+
+    def pure_fault(self, call_txt, last):
+        """A call that has no effect can still raise (a conversion, a lookup helper): inside a try
+        with handlers that is a path of its own."""
+        if last in _NO_FAULT or not self.ctx.alphabet:
+            return
+        if last[:1].isupper():
+            return
+        if not any(level for level in self.try_stack):
+            return
+        classes = [c for c in self.ctx.alphabet if c != 'CancelledError']
+        g = self.choose(f'pfault:{call_txt}@{self.epoch}', [None] + self._fault_groups(classes))
+        if g is not None:
+            val = Sym(f'pexc:{call_txt}@{self.epoch}')
+            self.exc_cls[str(val)] = g.split('|')[0]
+            self.exc_group[str(val)] = (f'pfault:{call_txt}@{self.epoch}', g.split('|'))
+            raise _Exc(g.split('|')[0], val)
+
+    @staticmethod
+    def _callee_name(call_txt: str) -> str:
+        head = call_txt.split('(', 1)[0]
+        return head.split('.')[-1].split('@')[0]
 
     def _fault_groups(self, classes) -> list:
         """Exception classes that the enclosing handlers cannot tell apart behave alike: one
@@ -750,7 +780,7 @@ class Run:
                 return
             g = gens[gi]
             itv = self.ev(g.iter, scope)
-            for el in self._iterate(itv, g.iter):
+            for el in self._iterate(itv, g.iter, None if gi == len(gens) - 1 else 'outer'):
                 self.assign(g.target, el, scope)
                 if all(self.decide(self.ev(c, scope)) for c in g.ifs):
                     rec(gi + 1, scope)
@@ -803,7 +833,7 @@ class Run:
             if tgt is not None:
                 return self.ev_Call(e.value, env)
         v = self.ev(e.value, env)
-        n = self.effect('await', show(v))
+        n = self.effect('await', show(v), name=ast.unparse(e.value.func if isinstance(e.value, ast.Call) else e.value).split('.')[-1])
         return Sym(f'aw{n}')
 
     # ------------------------------------------------------------------ calls
@@ -959,12 +989,18 @@ class Run:
             return Sym(f'obs{n}:{last}')
         is_name = isinstance(ftext, GSym) and '.' not in ftext
         if (is_name and last in PURE_FUNCS) or (not is_name and last in PURE_METHODS):
-            return Sym(call_txt)
+            self.pure_fault(call_txt, last)
+            stable = last in _STABLE_FUNCS if is_name else (isinstance(ftext, GSym) or last in _STABLE_METHODS)
+            if stable or not any(isinstance(a, Sym) and not isinstance(a, GSym) for a in
+                                 list(args) + list(kw.values()) + ([] if is_name else [ftext])):
+                return Sym(call_txt)
+            # what an accessor returns may change whenever something was called in between
+            return Sym(f'{call_txt}@{self.epoch}')
         # A7: the callee does not change a local container it is handed (its content at the call is
         # part of the trace; what THIS function does to it later is recorded as an effect)
         for a in list(args) + list(kw.values()):
             self.escape(a)
-        n = self.effect('call', call_txt)
+        n = self.effect('call', call_txt, name=last)
         return Sym(f'r{n}')
 
     def builtin(self, name, args, kw, env):
@@ -1021,6 +1057,11 @@ class Run:
                     return {'int': int, 'float': float, 'str': str, 'repr': repr, 'abs': abs, 'round': round}[name](*args)
                 except (ValueError, TypeError) as err:
                     raise self._raise_builtin(type(err).__name__)
+        if name == 'sum' and len(args) == 1 and conc and isinstance(args[0], (list, tuple)):
+            try:
+                return sum(args[0])
+            except TypeError:
+                raise Unknown('sum')
         if name in ('min', 'max') and conc and args:
             try:
                 return (min if name == 'min' else max)(*args)
@@ -1694,7 +1735,27 @@ class Run:
             raise
         self.effect('exit', show(v), 'ok', fault=False)
 
-    def _iterate(self, itv, text_hint):
+    @staticmethod
+    def _innermost(node) -> bool:
+        """A loop (or comprehension) with no other loop inside."""
+        if node is None:
+            return True
+        if node == 'outer':
+            return False
+        parts = (node.body + node.orelse) if isinstance(node, (ast.For, ast.AsyncFor)) else [node]
+        for part in parts:
+            for x in ast.walk(part):
+                if x is node:
+                    continue
+                if isinstance(x, (ast.For, ast.While, ast.AsyncFor, ast.comprehension)) and not (
+                        isinstance(node, ast.comprehension)):
+                    return False
+                if isinstance(x, ast.Call) and not isinstance(x.func, ast.Attribute) and isinstance(
+                        x.func, ast.Name) and False:
+                    return False
+        return True
+
+    def _iterate(self, itv, text_hint, loop=None):
         """Yield loop elements: concrete collections as they are, unknown ones 0..LOOP_UNROLL."""
         if not isinstance(itv, Sym) and isinstance(itv, (list, tuple, set, frozenset, dict)):
             for x in self._ordered(itv):
@@ -1705,7 +1766,7 @@ class Run:
         txt = show(itv)
         k = 0
         while True:
-            if k >= self.ctx.unroll[0]:
+            if k >= self.ctx.unroll[1 if self._innermost(loop) else 0]:
                 return
             if not self.choose(f'more({txt}, {k})', [False, True]):
                 return
@@ -1731,7 +1792,7 @@ class Run:
             return
         itv = self.ev(st.iter, env)
         broke = False
-        for el in self._iterate(itv, st.iter):
+        for el in self._iterate(itv, st.iter, st):
             self.assign(st.target, el, env)
             try:
                 self.block(st.body, env)
@@ -1762,7 +1823,7 @@ class Run:
         while True:
             if not self.decide(self.ev(st.test, env)):
                 break
-            if k >= self.ctx.unroll[1]:
+            if k >= self.ctx.unroll[2]:
                 self.cut = True
                 raise _Ret(Sym('<loop bound>'))
             k += 1
@@ -1880,7 +1941,7 @@ def summarise(ctx: Ctx, qual: str, fn) -> list:
 
 
 def _groups_meet(key, a, b) -> bool:
-    if not (key.startswith('fault@') or key.startswith('sub-fault:')) or a is None or b is None:
+    if not key.startswith(('fault@', 'sub-fault:', 'pfault:')) or a is None or b is None:
         return False
     return bool(set(a.split('|')) & set(b.split('|')))
 
@@ -1955,6 +2016,44 @@ def _handler_names(fns) -> set:
                 for a in x.args:
                     out.add(ast.unparse(a).split('.')[-1])
     return out
+
+
+def _exception_names(fns) -> set:
+    """Every exception class a function mentions (handlers, isinstance tests, raises)."""
+    out = set()
+    for fn in fns:
+        for x in ast.walk(fn):
+            nm = x.id if isinstance(x, ast.Name) else (x.attr if isinstance(x, ast.Attribute) else None)
+            if nm and nm[:1].isupper() and (nm in _EXC_PARENT or nm.endswith(('Error', 'Exception', 'InvalidState',
+                                                                               'UnknownEvent'))):
+                out.add(nm)
+    return out
+
+
+def _guarded_names(fns) -> set:
+    """Names of the callables invoked somewhere inside a try / with body of any of the functions."""
+    out = set()
+    for fn in fns:
+        for x in ast.walk(fn):
+            if isinstance(x, (ast.Try, ast.With, ast.AsyncWith)):
+                for st in x.body + getattr(x, 'orelse', []):
+                    for y in ast.walk(st):
+                        if isinstance(y, ast.Call):
+                            f = y.func
+                            out.add(f.id if isinstance(f, ast.Name) else (f.attr if isinstance(f, ast.Attribute) else ''))
+                        elif isinstance(y, ast.Await) and not isinstance(y.value, ast.Call):
+                            out.add(ast.unparse(y.value).split('.')[-1])
+    out.discard('')
+    return out
+
+
+def _signature(fn) -> str:
+    a = copy.deepcopy(fn.args)
+    for x in ast.walk(a):
+        if isinstance(x, ast.arg):
+            x.annotation = None
+    return ast.dump(a, include_attributes=False) + ('async' if isinstance(fn, ast.AsyncFunctionDef) else '') + \
+        ','.join(ast.unparse(d) for d in fn.decorator_list)
 
 
 def _called_names(fn) -> set:
@@ -2075,12 +2174,16 @@ def semantic_substitute(modname: str, tree: ast.Module, const_attrs=frozenset())
     proved = []
     for q in changed:
         fns = [cur[q], ref[q]] + _reach(cur[q], cur, only_cur) + _reach(ref[q], ref, only_ref)
-        alphabet = sorted((_handler_names(fns) - {'Exception', 'BaseException'}) | {'Other'})
+        alphabet = sorted(((_handler_names(fns) | _exception_names(fns)) - {'Exception', 'BaseException'}) | {'Other'})
         if any(isinstance(x, (ast.Await,)) for f in fns for x in ast.walk(f)):
             alphabet = sorted(set(alphabet) | {'CancelledError'})
         cctx = Ctx(cur, cur_classes, only_cur, const_attrs, alphabet)
         rctx = Ctx(ref, ref_classes, only_ref, const_attrs, alphabet)
-        ok, info = equivalent_cached(q, cur[q], ref[q], cctx, rctx, fns)
+        cctx.guarded = rctx.guarded = _guarded_names(fns)
+        if _signature(cur[q]) != _signature(ref[q]):
+            ok, info = False, 'signature (parameters, defaults, decorators) differs'
+        else:
+            ok, info = equivalent_cached(q, cur[q], ref[q], cctx, rctx, fns)
         log.append((q, 'restructured', f'equivalent to the reference form ({info})' if ok else f'kept as is ({info})'))
         if ok:
             proved.append(q)
